@@ -5,6 +5,7 @@ import JominiModel.Proofs.BinTapeWf
 import JominiModel.Proofs.BinTapeFaithful
 import JominiModel.Proofs.BinTapeTotal
 import JominiModel.Proofs.BinTapeNested
+import JominiModel.Proofs.BinTapeCut
 /-
 C03 — the binary tape mirrors the token stream; the fast paths are unobservable.
 Only property theorems live here; helper lemmas are in `Proofs/BinTape*.lean`.
@@ -132,6 +133,18 @@ theorem C03_total (opt : Bool) (data : Bytes) :
 
 example : parse true [0x04, 0x00] = .error .syntax ∧ parse true [0x82] = .ok [] ∧
     parse true [0x82, 0x2d] = .error .eof := ⟨rfl, rfl, rfl⟩
+
+/-- Payloads (shared with C06): on every accepted tape each key / value token is the decoding of a
+lexeme of the input — strings are slices of the input, numbers its little-endian bytes. -/
+theorem C03_payloads (opt : Bool) (data : Bytes) (toks : Tape) (h : parse opt data = .ok toks) :
+    ∀ x ∈ toks, x.isPlain = false ∨ x = .mixed ∨ ∃ off, off ≤ data.length ∧ LexTok (data.drop off) x :=
+  C06_bin_payloads opt data toks h
+
+/-- Truncation (shared with C19): the tape of an accepted prefix of the input is a prefix of the tape
+of the whole input. -/
+theorem C03_cut_prefix (opt : Bool) (data : Bytes) (k : Nat) (t' t : Tape)
+    (h : parse opt (data.take k) = .ok t') (hfull : parse opt data = .ok t) : t.take t'.length = t' :=
+  C19_bin_tape_prefix opt data k t' t h hfull
 
 /-- **Faithfulness.**  For every well-formed document of the model `Spec/BinTapeDoc.lean` — keys and
 values of all ten binary scalar types, objects and arrays nested to any depth, empty containers,
